@@ -174,8 +174,14 @@ impl CheckpointManager {
     /// # Errors
     ///
     /// Returns an error if the checkpoint directory cannot be created.
-    pub fn new(config: CheckpointConfig) -> Result<Self> {
+    pub fn new(mut config: CheckpointConfig) -> Result<Self> {
         if config.enabled {
+            // An empty path means "the current directory" to `Path::join` (checkpoint files are written
+            // there), but it is not a directory to `read_dir` / `exists`: retention, recovery and the
+            // clean-up after a successful run would never see the files that were written.
+            if config.directory.as_os_str().is_empty() {
+                config.directory = PathBuf::from(".");
+            }
             // Ensure the checkpoint directory exists
             create_dir_all(&config.directory).context("Failed to create checkpoint directory")?;
         }
